@@ -5,7 +5,12 @@ subscriptions.rs / im.rs (Subs.tla) refines Layer P (SubsProp.tla: NoLostUpdate,
 EndsWithinMax, LivenessBeforeMax); TLC-simulated operation schedules are replayed on the real Subscriptions
 object (harness plays the reporter loop and the priming path through the verif wrappers); the recorded trace is
 validated by TLC against Layer P.
-Level 2 (full stack: real subscriber, device, network) is added by checks/c13_full when present."""
+Level 2 (full stack): the same TLC behaviours projected onto what an environment controls (subscribe, change - also
+while the priming report is being read -, time, lost datagrams) plus harness-made schedules run on a real device
+(InteractionModel with its reporter task, default responder) and a real subscriber (ImClient establishment,
+rs-matter's controller-side ReportDataHandler) over the simulated network; every run ends with more than the max
+interval of silence; TLC validates the recorded trace against SubsE2eTrace.tla (values never from the future nor
+older than told before, priming carries everything, MinInterval, LivenessBeforeMax, NoLostUpdate at quiescence)."""
 import json, os
 import vlib
 from vlib import Check
@@ -18,6 +23,109 @@ def signature(r):
     if ev == "End":
         return "C13|table|report-content|" + e.get("r", "?")
     return "C13|table|" + str(ev)
+
+PMAP = {1: [101, 0], 2: [101, 1], 3: [102, 0]}
+
+def project(beh, variant):
+    """A behaviour of Subs.tla -> a schedule of the full-stack world."""
+    out, priming, n_sub, subscribed = [], None, 0, set()
+    for o in beh:
+        k = o.get("op")
+        if k == "Subscribe":
+            if o["s"] in subscribed:           # the model's re-subscription after an ended one: the real one is still alive
+                continue
+            subscribed.add(o["s"])
+            n_sub += 1
+            paths = [[-1, -1]] if (o["s"] + variant) % 2 == 1 else [[101, 0], [101, 1], [102, 0]]
+            priming = {"op": "Sub", "s": o["s"], "paths": paths, "min": 1 if variant % 3 else 0, "max": 4, "keep": True}
+            out.append(priming)
+        elif k == "Change":
+            pa = PMAP[o["p"]]
+            if priming is not None and "change_mid" not in priming:
+                priming["change_mid"] = pa
+            else:
+                out.append({"op": "Change", "cl": pa[0], "a": pa[1]})
+        elif k == "End":
+            if priming is not None and o.get("s") == priming["s"]:
+                priming = None
+            if o.get("r") == "fail":
+                out.append({"op": "Lose", "n": 1 + variant % 3})
+        elif k == "Tick":
+            out.append({"op": "Wait", "ms": 1000})
+    if n_sub == 0:
+        return None
+    return out + [{"op": "Quiet"}]
+
+def made_e2e():
+    S = lambda s, paths, **kw: dict({"op": "Sub", "s": s, "paths": paths, "min": 0, "max": 5, "keep": True}, **kw)
+    C = lambda cl, a: {"op": "Change", "cl": cl, "a": a}
+    W = lambda ms: {"op": "Wait", "ms": ms}
+    Q = {"op": "Quiet"}
+    out = []
+    out.append([S(1, [[101, 0], [101, 1]]), C(101, 0), W(1500), C(101, 1), C(102, 0), Q])
+    out.append([S(1, [[-1, -1]], min=1, max=10, change_mid=[101, 0]), W(500), Q])
+    for mid in ([101, 0], [101, 2], [102, 0], [102, 2]):
+        out.append([S(1, [[-1, -1]], change_mid=mid), Q])
+        out.append([S(1, [[-1, -1]], min=2, change_mid=mid), C(mid[0], mid[1]), W(300), C(101, 1), Q])
+        out.append([S(1, [[-1, -1]]), S(2, [[101, -1]], change_mid=mid), C(102, 1), Q])
+    # bursts (the change table coalesces), changes of attributes nobody subscribed to
+    out.append([S(1, [[101, 0], [102, 2]])] + [C(c, a) for c in (101, 102) for a in (0, 1, 2)] * 2 + [Q])
+    out.append([S(1, [[101, 0]]), S(2, [[102, -1]])] + [C(c, a) for a in (0, 1, 2) for c in (101, 102)] + [W(700)] + [C(102, 1), C(101, 0)] + [Q])
+    # a replaced subscription (keep = false), overlapping subscriptions
+    out.append([S(1, [[101, -1]]), C(101, 1), S(2, [[-1, -1]], keep=False), C(101, 1), C(102, 1), Q])
+    out.append([S(1, [[101, 1]]), S(2, [[101, 1], [102, 1]]), C(101, 1), W(100), C(101, 1), C(102, 1), Q])
+    # lost datagrams: reports and their acknowledgements are retransmitted, nothing is lost for good
+    for n in (1, 2, 3):
+        out.append([S(1, [[-1, -1]]), {"op": "Lose", "n": n}, C(101, 0), W(200), C(102, 2), Q])
+        out.append([S(1, [[101, 0], [101, 1]], min=1), C(101, 0), {"op": "Lose", "n": n}, W(1200), C(101, 1), W(3000), C(101, 0), Q])
+    # changes spread over several max intervals
+    out.append([S(1, [[-1, -1]], max=3), W(50000), C(101, 2), W(50000), C(102, 2), Q])
+    return out
+
+def e2e_signature(r):
+    e = r["event"]
+    ev = e.get("ev")
+    if ev == "Quiet":
+        return "C13|e2e|not-up-to-date-at-quiescence"
+    if ev in ("Item", "PItem"):
+        return "C13|e2e|value-in-report"
+    return "C13|e2e|" + str(ev)
+
+def level2(ck, beh, quick, seed):
+    wd = ck.wd
+    proj = []
+    for bi, b in enumerate(beh):
+        p = project(b, bi)
+        if p is not None:
+            proj.append(p)
+    if quick:
+        proj = proj[:150]
+    sched = made_e2e() + proj
+    bpath = os.path.join(wd, "behaviours_e2e.ndjson")
+    vlib.write_ndjson(bpath, sched)
+    tpath = os.path.join(wd, "trace_e2e.ndjson")
+    summ = vlib.harness(["c13e", "--behaviours", bpath, "--out", tpath], timeout=6000)
+    states, n_runs, rej = vlib.validate_runs("C13", "SubsE2eTrace.tla", "SubsE2eTrace.cfg", tpath)
+    for r in rej:
+        ck.violation(e2e_signature(r), "real subscriber: event %s (no. %d of its run) is not allowed by SubsE2eTrace" % (json.dumps(r["event"])[:500], r["at"]),
+                     {"schedule": sched[r["run_index"]] if r["run_index"] < len(sched) else None, "first_rejected": {"index": r["at"], "event": r["event"]}, "run": r["run"][:200]})
+    ev = vlib.read_ndjson(tpath)
+    # binding self-test: a report that carries a stale value must be rejected at that event
+    bad = {r["run_index"] for r in rej}
+    runs = [run for ri, run in enumerate(vlib.split_runs(ev)) if ri not in bad]
+    pick = next(run for run in runs if any(e.get("ev") == "Item" and e.get("v", 0) >= 1 for e in run))
+    k = next(i for i, e in enumerate(pick) if e.get("ev") == "Item" and e.get("v", 0) >= 1)
+    ev2 = [dict(e) for e in pick]
+    ev2[k]["v"] = ev2[k]["v"] + 1
+    cpath = os.path.join(wd, "trace_e2e_corrupt.ndjson")
+    vlib.write_ndjson(cpath, ev2)
+    r2 = vlib.tlc_trace("C13", "SubsE2eTrace.tla", "SubsE2eTrace.cfg", cpath, tag="selftest_e2e")
+    if r2["accepted"] or r2.get("rejected_at") != k + 1:
+        raise vlib.ToolError("binding self-test (full stack) failed: %s" % r2)
+    return {"schedules": len(sched), "harness_made": len(made_e2e()), "projected_from_the_model": len(proj), "runs": n_runs, "states": states, "rejected_runs": len(rej),
+            "events": len(ev), "reports": sum(1 for e in ev if e.get("ev") == "Rep"), "changes": sum(1 for e in ev if e.get("ev") == "Change"),
+            "changes_during_priming": sum(1 for s in sched for o in s if "change_mid" in o), "quiescence_checks": sum(1 for e in ev if e.get("ev") == "Quiet"),
+            "binding_selftest": {"corrupted_event": k + 1, "rejected_at": r2.get("rejected_at"), "ok": True}, "replay": summ}
 
 def run(tier, seed):
     ck = Check("C13", tier, seed)
@@ -68,7 +176,10 @@ def run(tier, seed):
     if r2["accepted"] or r2.get("rejected_at") != k + 1:
         raise vlib.ToolError("binding self-test failed: %s" % r2)
     quiets = sum(1 for e in ev if e.get("ev") == "Quiet")
+    l2 = level2(ck, beh, quick, seed)
+    n_runs += l2["runs"]; states += l2["states"]
     ck.cov.update({
+        "full_stack": l2,
         "states": mc["distinct"] + states, "transitions": mc["generated"] + gen_states,
         "traces_validated_against_impl": n_runs, "exhaustive": False,
         "design_model_runs": [{k2: mc[k2] for k2 in ("cfg", "generated", "distinct", "depth", "wall_s")}],
@@ -80,5 +191,6 @@ def run(tier, seed):
         "samples": [beh[2][:10], ev[:12]],
     })
     ck.assumptions += ["level 1 drives the real Subscriptions table through the verif wrappers; the harness plays the reporter loop of im.rs (sweep, report while reportable, purge) and the priming path",
-                       "quiescence is reached by letting every pending report succeed (a fair environment)"]
+                       "quiescence is reached by letting every pending report succeed (a fair environment)",
+                       "level 2: one controller with up to two subscriptions on one CASE session; at most 3 consecutive datagrams are lost (MRP recovers); events are not subscribed to at this level"]
     return ck.finish()
